@@ -86,9 +86,12 @@ DoRequestRandom(s, e) ==
       base == [id |-> ReqId(who, s.h), consumer |-> who, reqH |-> s.h, oracle |-> e.oracle,
                ctx |-> "", cap |-> 0, txh |-> e.txh]
   IN
-  \* e.n < 0 encodes a block interval of 2^64 + e.n: ValidateBasic admits every
-  \* uint64 and int64(interval) wraps, so the due height is exactly s.h + e.n
+  \* e.n < 0 encodes a block interval of 2^64 + e.n (ValidateBasic admits every
+  \* uint64).  Since fix beca1b5 the keeper refuses an interval whose due height
+  \* overflows, before anything is written; before it int64(interval) wrapped and
+  \* the request was queued under the past height s.h + e.n for good.
   IF e.cap < 0 THEN FailW(s, "invalid")
+  ELSE IF e.n < 0 THEN FailW(s, "interval")              \* sdkerrors.ErrInvalidRequest
   ELSE IF ~e.oracle THEN Done(Enqueue(s, s.h + e.n, base))
   ELSE IF DOMAIN s.bind = {} THEN FailW(s, "no_bindings")
   ELSE IF s.bal[who][D] < e.cap THEN FailW(s, "insufficient_fee")
@@ -296,7 +299,7 @@ GhostOf(s) ==
   [req |-> [id \in ids |->
               LET qs == {q \in s.pending : q.id = id}
                   q1 == CHOOSE q \in qs : TRUE
-              IN [cnt |-> Cardinality(qs), due |-> q1.due, oracle |-> q1.oracle, ctx |-> q1.ctx, wrap |-> FALSE]],
+              IN [cnt |-> Cardinality(qs), due |-> q1.due, oracle |-> q1.oracle, ctx |-> q1.ctx]],
    ful |-> EmptyF, lost |-> 0, lostO |-> {}, zh |-> 0]
 
 Changed(s, t) ==
@@ -316,10 +319,9 @@ GhostStep(g, s, e, t) ==
       req2 == IF e.name = "RequestRandom" /\ e.ok
               THEN Put(g.req, id,
                      IF id \in DOMAIN g.req
-                     THEN [g.req[id] EXCEPT !.cnt = @ + 1, !.wrap = @ \/ e.n < 0]
+                     THEN [g.req[id] EXCEPT !.cnt = @ + 1]
                      ELSE [cnt |-> 1, due |-> s.h + e.n, oracle |-> e.oracle,
-                           ctx |-> IF mine # {} THEN (CHOOSE q \in mine : TRUE).ctx ELSE "",
-                           wrap |-> e.n < 0])
+                           ctx |-> IF mine # {} THEN (CHOOSE q \in mine : TRUE).ctx ELSE ""])
               ELSE g.req
       ch == Changed(s, t)
       rep == Replaced(s, e)
@@ -329,11 +331,10 @@ GhostStep(g, s, e, t) ==
       lostO |-> g.lostO \cup {q.ctx : q \in {x \in rep : x.oracle}},
       zh |-> g.zh]
 
-(* the requests the property speaks about: the only one with their id (the id
-   scheme identifies a request by requester and height), with an interval that
-   does not wrap *)
-Single(g, id) == id \in DOMAIN g.req /\ g.req[id].cnt = 1 /\ ~g.req[id].wrap
-Wrapped(g, id) == id \in DOMAIN g.req /\ g.req[id].wrap
+(* the requests the property speaks about: every accepted request that is the
+   only one with its id (the id scheme identifies a request by requester and
+   height) *)
+Single(g, id) == id \in DOMAIN g.req /\ g.req[id].cnt = 1
 
 (* BeginBlock(due + 1) has run *)
 BeginRan(t, due) == t.h > due + 1 \/ (t.h = due + 1 /\ t.inb)
@@ -393,7 +394,8 @@ C13_QueueSound_Random(t, g) ==
   \A q \in t.pending :
     /\ q.id \in DOMAIN g.req
     /\ Single(g, q.id) => (q.due = g.req[q.id].due /\ q.id \notin DOMAIN t.results)
-    /\ (~Wrapped(g, q.id)) => (q.due >= t.h - 1 /\ (t.inb => q.due >= t.h))
+    /\ q.due >= t.h - 1
+    /\ t.inb => q.due >= t.h
 
 (* every awaiting request has exactly one entry, a processed one none *)
 C13_QueueComplete_Random(t, g) ==
@@ -406,7 +408,7 @@ C13_OnceOnTime_Random(s, e, t, g) ==
       gone == {key(q) : q \in s.pending} \ {key(q) : q \in t.pending}
   IN /\ gone # {} => e.name \in {"BeginBlock", "ZeroHeight"}
      /\ e.name = "BeginBlock" => \A k \in gone : k[1] = s.h - 1
-     /\ (e.name = "BeginBlock" /\ ~e.halt) => \A q \in t.pending : Wrapped(g, q.id) \/ q.due >= s.h
+     /\ (e.name = "BeginBlock" /\ ~e.halt) => \A q \in t.pending : q.due >= s.h
 
 C13_NoHalt(e) == ~e.halt
 
@@ -447,16 +449,11 @@ X18_LateAnswer(s, e, t) ==
                           \/ ~s.ctx[e.ctx].reqs[e.who].act)) =>
     (~e.ok /\ t = s)
 
-(* block intervals of 2^63 and more wrap: the entry is queued under a height
-   that has passed, is never processed, never leaves, and no number is ever
-   stored for it; nothing else is ever stale *)
-Stale(q, t) == q.due < t.h - 1 \/ (t.inb /\ q.due < t.h)
-X18_WrapStale(s, e, t, g) ==
-  /\ \A q \in t.pending : Stale(q, t) => Wrapped(g, q.id)
-  /\ e.name # "ZeroHeight" =>
-       \A q \in s.pending : (Wrapped(g, q.id) /\ Stale(q, s)) =>
-         \E r \in t.pending : r.due = q.due /\ r.id = q.id
-  /\ \A id \in Changed(s, t) : (Wrapped(g, id) /\ g.req[id].cnt = 1) => FALSE
+(* block intervals whose due height overflows (2^63 and more; encoded n < 0)
+   are refused (fix beca1b5).  Were one accepted, it would sit under a past
+   height for ever: C13_QueueSound_Random / C18_Due then fail on the trace *)
+X18_WrapRejected(s, e) ==
+  (e.name = "RequestRandom" /\ e.n < 0) => ~e.ok
 
 (* a zero-height restart rebuilds the queue with every entry moved from q to
    q - H + 1 (H the export height).  The state after the event is the one after
@@ -479,7 +476,6 @@ Rejected_NoEffect(s, e, t) ==
 CONSTANTS MaxH, MaxReq, Intervals, Caps, Bound, Price, Funds, Timeout, TaxNum, TaxDen, Kinds,
           MaxZH      \* zero-height restarts per behaviour (0: none)
 
-IntervalsWrapDef == {-2, -1, 0, 1}
 
 Accts == Users \cup Provs \cup {SVCREQ, SVCDEP, SVCTAX}
 
@@ -572,7 +568,7 @@ Act_X18_DupReplace == [][X18_DupReplace(st, ev', st')]_vars
 Act_X18_DupOrphan == [][X18_DupOrphan(st', gh')]_vars
 Act_X18_DupResult == [][X18_DupResult(st, ev', st', gh')]_vars
 Act_X18_LateAnswer == [][X18_LateAnswer(st, ev', st')]_vars
-Act_X18_WrapStale == [][X18_WrapStale(st, ev', st', gh')]_vars
+Act_X18_WrapRejected == [][X18_WrapRejected(st, ev')]_vars
 Act_X18_ZeroHeightQueue == [][X18_ZeroHeightQueue(st, ev', st')]_vars
 
 (* design-level sanity of the service slice: money is conserved *)
